@@ -68,7 +68,7 @@ func Run(c *hx.Ctx) {
 	probeLifetime(c, signers)
 
 	// G1/G2/G3: valid blocks and their mutations
-	nBlocks := c.N(20, 300)
+	nBlocks := c.N(15, 300)
 	realBudget := c.N(8, 60)
 	for i := 0; i < nBlocks; i++ {
 		ntx := i % (maxTx + 1)
